@@ -384,8 +384,9 @@ public:
                    , const y_coord_t y_height
                    )
     : _y_plane(        y_width,        y_height, 0, Allocator() )
-    , _v_plane( y_width / parent_t::ss_X, y_height / parent_t::ss_Y, 0, Allocator() )
-    , _u_plane( y_width / parent_t::ss_X, y_height / parent_t::ss_Y, 0, Allocator() )
+    // the chroma planes have to cover every luma position: round up
+    , _v_plane( ( y_width + parent_t::ss_X - 1 ) / parent_t::ss_X, ( y_height + parent_t::ss_Y - 1 ) / parent_t::ss_Y, 0, Allocator() )
+    , _u_plane( ( y_width + parent_t::ss_X - 1 ) / parent_t::ss_X, ( y_height + parent_t::ss_Y - 1 ) / parent_t::ss_Y, 0, Allocator() )
     {
         init();
     }
